@@ -299,6 +299,10 @@ def cases(tier):
                     yield {"check": "bad1", "layout": layout, "ref": kind, "cols": "both", "sample": "plain", "anti": "full", "k": k, "way": way,
                            "corr": [list(c) for c in (CORR_ALL if kind == "pooled" else CORR_ENDS)], "frac": 0.5,
                            "variants": "lite", "variants_on": "ends" if not t else "all"}
+                    if kind == "pooled" and layout_bins(layout)[k][3] == "T":
+                        # empty antitarget: nothing re-sorts / re-indexes the tables after the corrections
+                        yield {"check": "bad1", "layout": layout, "ref": kind, "cols": "both", "sample": "plain", "anti": "empty", "k": k, "way": way,
+                               "corr": [list(c) for c in (CORR_ALL if t else [(), ("gc",), ("edge",), ("gc", "edge", "rmask")])], "frac": 0.5, "variants": "none"}
     # 5. sample = subset of the reference bins (<= 2 deleted)
     for layout in main:
         n = len(layout_bins(layout))
